@@ -69,7 +69,9 @@ def _check(repo, file, qual, cls):
     tries = [t for t in node.body if isinstance(t, ast.Try)]
     outside = [s for s in node.body if not isinstance(s, (ast.Try, ast.Return)) and not (isinstance(s, ast.Expr) and isinstance(s.value, ast.Constant))]
     if len(tries) != 1 or outside:
-        why.append("the resolution is not wrapped in one try statement")
+        if why:
+            return why
+        raise Unsupported(f"{qual}: the resolution is not one try statement (shape outside this contract)")
     else:
         t = tries[0]
         if t.finalbody or t.orelse and not all(isinstance(s, ast.Return) for s in t.orelse):
@@ -120,7 +122,8 @@ def _check_lookup(repo, file, qual, coll):
         return ["expected exactly one argument (the GUID)"]
     g = params[0]
     if len(body) != 2 or not isinstance(body[0], ast.For) or not isinstance(body[1], ast.Raise):
-        return [f"the body is not `for x in {coll}: if x.guid == {g}: return x` followed by `raise KeyError`"]
+        # another way of writing the lookup: outside what this shape contract can read -> undecided, not a violation
+        raise Unsupported(f"{qual}: the body is not `for x in {coll}: if x.guid == {g}: return x` followed by a raise")
     loop, rs = body
     if ast.unparse(loop.iter) != coll or loop.orelse or not isinstance(loop.target, ast.Name):
         why.append(f"the loop does not run over {coll} in order")
